@@ -34,6 +34,11 @@ def units(tier):
     return candgraph.units()
 
 
-def bounded(tier, seed):
+def _bounded(tier, seed):
     from pyvc.native_bridge import bounded_pure
     return [bounded_pure(tier, "c18", "c18", "all placements of <=4 points in 4 frames x 3 positions x 2 distances; 150 (1500) random label videos", seed, exhaustive=False)]
+
+
+def bounded(tier, seed):
+    from ._common import model_checks
+    return _bounded(tier, seed) + model_checks(tier, "kdtree,regionprops,compute_ious,networkx", shape=False, seed=seed)
